@@ -12,6 +12,7 @@ FIXTURE_KINDS = {
     "CONSTANT_TABLE": "constant", "_REGISTRY": "import-time", "_STATISTICS": "write-only", "_PURE_MEMO": "memo",
     "_BAD_KEY_MEMO": "memo-key-incomplete", "_FILE_MEMO": "memo-of-outside-data", "_BUFFER": "shared", "_counter": "shared",
     "Collector.NAMES": "constant", "Collector._seen": "shared",
+    "Range._calls": "write-only", "Range._last_index": "shared", "Range._parsed": "lazy",
 }
 
 
@@ -27,8 +28,9 @@ def anchor_files(property_id):
 
 def rule_module_state(ctx):
     """
-    X-STATE: the modules this property is anchored in keep no hidden run-time state at module level - what a call answers
-    depends on its arguments and on the objects it is given (CID, reader, writer), not on earlier calls in the process.
+    X-STATE: the modules this property is anchored in keep no hidden run-time state - neither at module or class level
+    nor in the validator objects without a life cycle (ranges, field formats, SQL dialects): what a call answers depends on
+    its arguments and on the objects it is given (CID, reader, writer), not on earlier calls in the process.
     Decided by cpsa/xstate.py over every module-level container of the anchor files; the classifier itself is checked on
     a fixture with one cell of every kind on every run.
     """
